@@ -41,7 +41,7 @@ REQUIRED_COUNTERS = {   # ~40 % of what the unchanged tree produces (determinist
               "gmrf_constant_checked": 100, "mhn_difference_checked": 20, "conditioned_value_checked": 500,
               "threshold_embedding_checked": 170, "reassign_history_checked": 500, "compute_cov_checked": 600,
               "cdf_dblquad_checked": 10, "gaussian_cdf_forms_agree_checked": 80, "scaled_constant_checked": 500,
-              "scaled_quadratic_checked": 800, "boundary_value_checked": 40},
+              "scaled_quadratic_checked": 800, "boundary_value_checked": 40, "batch_value_checked": 100},
     "thorough": {"logpdf_value_checked": 5000, "gaussian_form_value_checked": 20000, "gaussian_forms_agree_checked": 20000,
                  "gaussian_logdet_checked": 7000, "gaussian_reassign_checked": 3000, "outside_support_checked": 2000,
                  "cdf_value_checked": 3500, "normalisation_quadratures": 130, "slice_quadratures": 800, "cdf_quadratures": 150,
@@ -49,7 +49,7 @@ REQUIRED_COUNTERS = {   # ~40 % of what the unchanged tree produces (determinist
                  "gmrf_constant_checked": 300, "mhn_difference_checked": 150, "conditioned_value_checked": 6000,
                  "threshold_embedding_checked": 700, "reassign_history_checked": 2500, "compute_cov_checked": 5000,
                  "cdf_dblquad_checked": 80, "gaussian_cdf_forms_agree_checked": 600, "scaled_constant_checked": 2000,
-                 "scaled_quadratic_checked": 3000, "boundary_value_checked": 160},
+                 "scaled_quadratic_checked": 3000, "boundary_value_checked": 160, "batch_value_checked": 300},
 }
 BUDGET_S = {"quick": 200.0, "thorough": 1500.0}
 
@@ -63,10 +63,14 @@ UNI_FAMS = ("Normal", "Laplace", "SmoothedLaplace", "Cauchy", "Gamma", "InverseG
 VEC = {"Normal": ("mean", "std"), "Laplace": ("location",), "SmoothedLaplace": ("location", "scale"),
        "Cauchy": ("location", "scale"), "Gamma": ("shape", "rate"), "InverseGamma": ("shape", "location", "scale"),
        "Beta": ("alpha", "beta"), "Uniform": ("low", "high")}
-PFORMS = ("scalar1", "bcast", "array", "list", "mixed_a", "mixed_b", "cond_fn", "cond_none")
+PFORMS = ("scalar1", "bcast", "array", "list", "mixed_a", "mixed_b", "cond_fn", "cond_none",
+          "arr1", "list1", "arr0d", "cond_arr1")     # one-element array / list / 0-d array wherever a scalar is allowed
+ONE_ELEM = ("arr1", "list1", "arr0d", "cond_arr1")
 # forms whose *construction or evaluation* may be refused with a documented exception (nothing in the
 # documentation promises them); everything else must produce a value.
-MAY_REFUSE = {("Normal", "list"), ("Uniform", "list")}     # python lists reach list*float / list-list arithmetic: TypeError
+MAY_REFUSE = {("Normal", "list"), ("Uniform", "list"), ("Normal", "list1"), ("Uniform", "list1"), ("Laplace", "list1"),
+              # 0-d arrays have no len(): the dimension inference raises IndexError for classes that keep them as given
+              ("Laplace", "arr0d"), ("SmoothedLaplace", "arr0d"), ("Uniform", "arr0d")}     # python lists reach list*float / list-list arithmetic: TypeError
 HAS_CDF = ("Normal", "Cauchy", "Gamma", "InverseGamma", "Beta")
 
 GAUSS_DIMS = {"quick": (1, 2, 5, 74, 75, 76, 77), "thorough": (1, 2, 3, 5, 9, 74, 75, 76, 77, 120)}
@@ -88,14 +92,14 @@ def cases(tier, seed):
         for d in GAUSS_DIMS[tier]:
             if d == 1 and struct in ("full", "banded"):
                 continue
-            for mean_form in ("array", "scalar", "list"):
+            for mean_form in ("array", "scalar", "list", "arr1"):
                 for rep in range(1 if tier == "quick" else (10 if d < 70 else 5)):
                     out.append({"kind": "gauss", "struct": struct, "dim": d, "mean_form": mean_form, "rep": rep})
     for covform in ("scalar", "vector", "dense", "diag_dense", "cond_fn"):
         for d in ((1, 2, 3, 76) if tier == "quick" else (1, 2, 3, 5, 8, 75, 76, 77)):
             for rep in range(1 if tier == "quick" else 5):
                 out.append({"kind": "lognormal", "covform": covform, "dim": d, "rep": rep})
-    for pf in ("scalar1", "bcast", "array"):
+    for pf in ("scalar1", "bcast", "array", "arr1"):
         for rep in range(4 if tier == "quick" else 30):
             out.append({"kind": "mhn", "pform": pf, "rep": rep})
     n1 = (4, 7, 12) if tier == "quick" else (3, 4, 5, 7, 9, 12, 16, 24, 40)
@@ -103,7 +107,7 @@ def cases(tier, seed):
     for pd, Ns in ((1, n1), (2, n2)):
         for N in Ns:
             for bc in ("zero", "periodic", "neumann"):
-                for shift in ("zero", "vector", "scalar"):
+                for shift in ("zero", "vector", "scalar", "arr1"):
                     for mode in ("plain", "cond"):
                         for order in (0, 1, 2):
                             if order == 2 and N < 4:
@@ -179,9 +183,10 @@ def _mkfun(argname, fn=None):
     exec(f"def g({argname}):\n    return _f({argname})", ns)
     return ns["g"]
 
-def _val(ctx, what, fn, *a, may_refuse=False, cfg=None, **k):
-    """Run a library call; classify. Returns ('value', v) or (None, None) after reporting."""
-    kind, v = core.outcome(fn, *a, **k)
+def _val(ctx, what, fn, *a, may_refuse=False, cfg=None, broad=False, **k):
+    """Run a library call; classify. Returns ('value', v) or (None, None) after reporting.
+    broad=True: undocumented input type (0-d array, python list) - any of core.REFUSAL_TYPES_BROAD is a refusal."""
+    kind, v = core.outcome(fn, *a, refusal=(core.REFUSAL_TYPES_BROAD if broad else core.REFUSAL_TYPES), **k)
     if kind == "value":
         return "value", v
     if kind == "refused" and may_refuse:
@@ -227,7 +232,7 @@ def _draw_params(fam, roles, d, rs, smooth=False):
 def _roles(fam, pform):
     names = R.UNI[fam]["params"]
     vec = VEC[fam]
-    if pform in ("scalar1", "bcast"):
+    if pform in ("scalar1", "bcast") + ONE_ELEM:
         return {p: "s" for p in names}
     if pform in ("array", "list", "cond_fn", "cond_none"):
         return {p: ("v" if p in vec else "s") for p in names}
@@ -289,14 +294,14 @@ def _build_uni(cuqi, fam, pform, P, roles, d):
     def passed(p):
         v = P[p]
         if roles[p] == "s":
-            return float(v[0])
+            return {"arr1": np.array([float(v[0])]), "list1": [float(v[0])], "arr0d": np.array(float(v[0]))}.get(pform, float(v[0]))
         return v.tolist() if pform == "list" else np.array(v)
     kwargs, cond = {}, {}
     any_vec = False
     for i, p in enumerate(names):
-        if pform == "cond_fn":
+        if pform in ("cond_fn", "cond_arr1"):
             kwargs[p] = _mkfun("c_" + p)
-            cond["c_" + p] = np.array(P[p]) if roles[p] == "v" else float(P[p][0])
+            cond["c_" + p] = np.array(P[p]) if roles[p] == "v" else (np.array([float(P[p][0])]) if pform == "cond_arr1" else float(P[p][0]))
         elif pform == "cond_none" and i == 0:
             kwargs[p] = None
             cond[p] = np.array(P[p]) if roles[p] == "v" else float(P[p][0])
@@ -360,7 +365,7 @@ def _run_uni(case, ctx, rs):
     import cuqi
     fam, pform = case["family"], case["pform"]
     two_d = case["kind"] == "uni2d"
-    if pform == "scalar1":
+    if pform == "scalar1" or (pform in ONE_ELEM and case["rep"] % 3 == 0):
         d = 1
     elif two_d:
         d = 2
@@ -371,7 +376,7 @@ def _run_uni(case, ctx, rs):
     cfg = _uni_cfg(case, d, roles)
     may = (fam, pform) in MAY_REFUSE
     cls, kwargs, cond = _build_uni(cuqi, fam, pform, P, roles, d)
-    k, dist0 = _val(ctx, "construct", cls, may_refuse=may, cfg=cfg, **kwargs)
+    k, dist0 = _val(ctx, "construct", cls, may_refuse=may, cfg=cfg, broad=may, **kwargs)
     if k is None:
         ctx.nontrivial() if may else None
         return
@@ -386,7 +391,7 @@ def _run_uni(case, ctx, rs):
     for j in range(5):
         x = _interior(fam, P, d, rs)
         xin = float(x[0]) if (d == 1 and j % 2 == 0) else x.copy()
-        k, v = _val(ctx, "logpdf", dist.logpdf, xin, may_refuse=may, cfg=cfg)
+        k, v = _val(ctx, "logpdf", dist.logpdf, xin, may_refuse=may, cfg=cfg, broad=may)
         if k is None:
             if may:
                 ctx.nontrivial()
@@ -645,9 +650,9 @@ def _run_gauss(case, ctx, rs):
     else:
         Sigma = _spd(rs, d, struct)
         entries = _gauss_entries(struct, d, Sigma, rs)
-    if mean_form == "scalar":
+    if mean_form in ("scalar", "arr1"):
         mu = np.full(d, float(rs.uniform(-2, 2)))
-        mean_arg = float(mu[0])
+        mean_arg = float(mu[0]) if mean_form == "scalar" else np.array([float(mu[0])])
     else:
         mu = rs.uniform(-2, 2, d)
         mean_arg = mu.tolist() if mean_form == "list" else mu.copy()
@@ -672,7 +677,7 @@ def _run_gauss(case, ctx, rs):
             value = target
         else:
             kwargs[param] = value
-        if d > 1 and (mean_form == "scalar" or cond is not None):
+        if d > 1 and (mean_form in ("scalar", "arr1") or cond is not None):
             kwargs["geometry"] = d
         k, g0 = _val(ctx, "construct", cuqi.distribution.Gaussian, mean_arg, may_refuse=may, cfg=cfg, **kwargs)
         if k is None:
@@ -752,7 +757,7 @@ def _run_gauss(case, ctx, rs):
         if d <= 2 and struct in ("iso", "diag") and storage in ("scalar", "vector", "diag_dense", "sp_csr_diag"):
             x = xs[0]
             # scipy refuses a 1-element mean with a dim x dim covariance, and a sparse covariance: exceptions, not values
-            k, v = _val(ctx, "cdf", g.cdf, x.copy(), may_refuse=((mean_form == "scalar" and d > 1) or storage.startswith("sp_")), cfg=cfg)
+            k, v = _val(ctx, "cdf", g.cdf, x.copy(), may_refuse=((mean_form in ("scalar", "arr1") and d > 1) or storage.startswith("sp_")), cfg=cfg)
             if k is not None:
                 ref = float(np.prod(R.normal_cdf1(x, mu, sd)))
                 ctx.count("cdf_value_checked")
@@ -820,7 +825,7 @@ def _gauss_cov_cdf(ctx, cov_objs, d, mu, Sigma, sd, x0, mean_form, rs):
                 ctx.violation("compute_cov_differs_from_density", cfg,
                               detail=f"dim={d}: compute_cov() differs from the covariance realised by the object's own logpdf "
                                      f"(max abs difference {err}, scale {float(np.max(np.abs(Sr))):.3g})")
-        if d > 3 or (mean_form == "scalar" and d > 1):
+        if d > 3 or (mean_form in ("scalar", "arr1") and d > 1):
             continue
         # (b)/(c) cdf
         k, v = _val(ctx, "cdf", g.cdf, x0.copy(), may_refuse=sparse_in, cfg=cfg)
@@ -987,7 +992,8 @@ def _run_mhn(case, ctx, rs):
     else:
         a0, b0, g0 = float(_logu(rs, 0.6, 8.0)), float(_logu(rs, 0.2, 5.0)), float(rs.uniform(-3, 3))
         a, b, g = np.full(d, a0), np.full(d, b0), np.full(d, g0)
-        args = (a0, b0, g0); kw = {"geometry": d} if d > 1 else {}
+        args = (a0, b0, g0) if pform != "arr1" else (np.array([a0]), np.array([b0]), np.array([g0]))
+        kw = {"geometry": d} if d > 1 else {}
     k, dist = _val(ctx, "construct", cuqi.distribution.ModifiedHalfNormal, *args, cfg=cfg, name="x", **kw)
     if k is None:
         return
@@ -1040,7 +1046,7 @@ def _run_mrf(case, ctx, rs):
     elif shift == "vector":
         loc = rs.standard_normal(n); loc_arg = loc.copy()
     else:
-        loc = np.full(n, float(rs.uniform(-2, 2))); loc_arg = float(loc[0])
+        loc = np.full(n, float(rs.uniform(-2, 2))); loc_arg = float(loc[0]) if shift == "scalar" else np.array([float(loc[0])])
     par = float(_logu(rs, 0.1, 20.0))
     D = S.diff_op(N, bc, order, pd)
     cls = getattr(cuqi.distribution, fam)
@@ -1049,9 +1055,9 @@ def _run_mrf(case, ctx, rs):
         kwargs["order"] = order
     cond = None
     if mode == "cond":
-        par_arg = _mkfun("s_", lambda s: s * par); cond = {"s_": 1.0}
+        par_arg = _mkfun("s_", lambda s: s * par); cond = {"s_": np.array([1.0]) if shift == "arr1" else 1.0}
     else:
-        par_arg = par
+        par_arg = np.array([par]) if shift == "arr1" else par      # 1-element array where a scalar is allowed
     k, dist0 = _val(ctx, "construct", cls, loc_arg, par_arg, cfg=cfg, **kwargs)
     if k is None:
         return
@@ -1106,11 +1112,13 @@ def _run_mrf(case, ctx, rs):
                 offs.append(_scalar(lv) - got)
     else:
         reff = R.lmrf_logpdf if fam == "LMRF" else R.cmrf_logpdf
+        percol = []
         for x in pts:
             k, v = _val(ctx, "logpdf", dist.logpdf, x.copy(), cfg=cfg)
             if k is None:
                 return
             got, ref = _scalar(v), reff(x, loc, par, D)
+            percol.append(got)
             ctx.count("mrf_value_checked")
             ok = _close(got, ref)
             if not ok:
@@ -1123,9 +1131,31 @@ def _run_mrf(case, ctx, rs):
             k, lv = _val(ctx, "logd", dist.logd, x.copy(), cfg=cfg)
             if k is not None:
                 offs.append(_scalar(lv) - got)
+    if fam in ("LMRF", "CMRF") and all(g_ is not None for g_ in percol):
+        # a (dim x k) matrix of columns (the Samples layout; these two classes reduce along axis 0 by construction): batch
+        # evaluation is undocumented, so it must be refused or return exactly the k per-column values
+        # k != dim: with k == dim a vector location broadcasts along the wrong axis (undocumented use, not judged)
+        if n == len(pts):
+            pts, percol = pts[:2], percol[:2]
+        X = np.column_stack(pts)
+        for via in ("logpdf", "logd", "pdf"):
+            kk, bv = core.outcome(getattr(dist, via), X.copy(), refusal=core.REFUSAL_TYPES_BROAD)
+            if kk == "refused":
+                ctx.refused("batch " + via, bv); ctx.count("batch_refused")
+                continue
+            if kk == "crashed":
+                ctx.violation("crash", {**cfg, "call": "batch " + via, "exc": type(bv).__name__}, detail=repr(bv))
+                continue
+            ctx.count("batch_value_checked")
+            arr = np.asarray(bv, dtype=float)
+            want = np.array(percol) if via != "pdf" else np.exp(np.array(percol))
+            if arr.size != len(percol) or not np.allclose(arr.ravel(), want, rtol=1e-9, atol=1e-300):
+                ctx.violation("batch_value_not_per_column", {**cfg, "via": via},
+                              detail=f"{fam}.{via} on a ({n} x {len(percol)}) matrix of columns returned shape {arr.shape} "
+                                     f"{np.ravel(arr)[:4].tolist()}; per-column values {want.tolist()} (neither refused nor per column)")
     if cond:
         x = pts[0]
-        k, cv = _val(ctx, "logd(cond positional)", dist0.logd, 1.0, x.copy(), cfg=cfg)
+        k, cv = _val(ctx, "logd(cond positional)", dist0.logd, cond["s_"], x.copy(), cfg=cfg)
         k2, lv = _val(ctx, "logd", dist.logd, x.copy(), cfg=cfg)
         if k is not None and k2 is not None:
             ctx.count("conditioned_value_checked")
